@@ -45,6 +45,7 @@ def _agg_unit(aggname, keys):
     @unit("C01", f"aggregate_votes.{aggname}", fns=[f"{BASE}._get_reporting_aggregate_votes"])
     def votes(h):
         t = Three(h, "turnout")
+        h.default_replay = rp
         self = _base_model(h)
         kind, res = h.call_method(self, "_get_reporting_aggregate_votes", t.rep, t.third, list(keys), "turnout")
         if kind == "raise":
@@ -73,6 +74,7 @@ def _agg_unit(aggname, keys):
         # the columns add_unit_predictions writes on the other two frames
         t.rep.cols["pred_turnout"] = t.rep.cols["results_turnout"]
         t.third.cols["pred_turnout"] = t.third.cols["results_turnout"]
+        h.default_replay = rp
         self = _base_model(h)
         kind, res = h.call_method(self, "get_aggregate_predictions", t.rep, t.nonrep, t.third, list(keys), "turnout")
         if kind == "raise":
@@ -217,6 +219,56 @@ def unit_table(h):
     h.ensures("C13.columns", list(ud.cols) == ["postal_code", "geographic_unit_fips", "pred_turnout", "reporting", "unit_category"] + [f"{s}_{a}_turnout" for a in alphas for s in ("lower", "upper")] + ["results_turnout"])
     h.ensures("sorted_by_unit_id", ud.axis.order == ("sorted", ("geographic_unit_fips",)))
 
+
+
+@unit("C01", "model_results.final_tables_carry_the_aggregate_values", fns=[f"{MRH}.add_agg_predictions", f"{MRH}.process_final_results"])
+def final_tables(h):
+    """what an estimate run RETURNS: the aggregate table handed to the results handler (counted votes -- for the margin
+    estimand a fraction --, prediction, reporting count, interval columns) comes out of process_final_results cell by cell as
+    it went in, one row per group.  (The handler is generic in the estimand: the group values are REAL-valued here, as the
+    bootstrap estimator's margin columns are, under the column names of a vote count.)"""
+    from pyvc import frames as _fr
+
+    alphas = [0.7, 0.9]
+    t = Three(h, "turnout")
+    mr = _handler(h, t, ["postal_code", "unit"], alphas)
+    u = t.root.u
+    pred = V(z3.Function("unit_pred", z3.IntSort(), z3.IntSort())(u), (t.nonrep.axis,), t.nonrep.index)
+    k, r_ = h.call_method(mr, "add_unit_predictions", "turnout", pred)
+    if k == "raise":
+        return h.fail("add_unit_predictions.no_raise", f"raised {r_}")
+    pis = {a: NamedTuple("PredictionIntervals", ["lower", "upper", "conformalization"], [V(z3.Function(f"unit_lower_{a}", z3.IntSort(), z3.IntSort())(u), (t.nonrep.axis,), None), V(z3.Function(f"unit_upper_{a}", z3.IntSort(), z3.IntSort())(u), (t.nonrep.axis,), None), None]) for a in alphas}
+    k, r_ = h.call_method(mr, "add_unit_intervals", "turnout", pis)
+    if k == "raise":
+        return h.fail("add_unit_intervals.no_raise", f"raised {r_}")
+    gs = _fr.keyspace(["postal_code"], {"postal_code": z3.StringSort()})
+    g = gs.keyvars["postal_code"]
+    pres = z3.Function("state_present", z3.StringSort(), z3.BoolSort())(g)
+    ax = _fr.RowAxis(gs, [pres], ("sorted", ("postal_code",)))
+    est = _fr.Frame(ax, {}, ("range", ax.name), None)
+    est.cols["postal_code"] = V(g, (ax,), est.index)
+    given = {}
+    for c, srt in (("pred_turnout", z3.RealSort()), ("results_turnout", z3.RealSort()), ("reporting", z3.IntSort())):
+        given[c] = z3.Function(f"state_{c}", z3.StringSort(), srt)(g)
+        est.cols[c] = V(given[c], (ax,), est.index)
+    ints = {}
+    for a in alphas:
+        lo, up = z3.Function(f"state_lower_{a}", z3.StringSort(), z3.RealSort())(g), z3.Function(f"state_upper_{a}", z3.StringSort(), z3.RealSort())(g)
+        given[f"lower_{a}_turnout"], given[f"upper_{a}_turnout"] = lo, up
+        ints[a] = NamedTuple("PredictionIntervals", ["lower", "upper"], [V(lo, (ax,), est.index), V(up, (ax,), est.index)])
+    k, r_ = h.call_method(mr, "add_agg_predictions", "turnout", "postal_code", est, ints)
+    if k == "raise":
+        return h.fail("add_agg_predictions.no_raise", f"raised {r_}")
+    rp = lambda ev: {"target": "verif_replays:final_tables_replay", "args": [], "check": "result['exc'] is None and result['ok']"}  # noqa: E731
+    h.default_replay = rp
+    k, r_ = h.call_method(mr, "process_final_results")
+    if k == "raise":
+        return h.fail("process_final_results.no_raise", f"raised {r_}", replay=rp)
+    sd = mr.attrs["final_results"]["state_data"]
+    h.ensures("one_row_per_group", sd.axis.root is gs and len(sd.axis.doms) == 1 and z3.eq(z3.simplify(sd.axis.doms[0]), z3.simplify(pres)), replay=rp)
+    rows = z3.And(*sd.axis.facts())
+    for c, term in given.items():
+        h.ensures(f"{c}.comes_out_as_it_went_in", c in sd.cols and z3.Implies(rows, z3.And(_fr.real(sd.col(c).t) == _fr.real(term), z3.Not(sd.col(c).nan) if sd.col(c).nan is not None else z3.BoolVal(True))) if c in sd.cols else False, replay=rp)
 
 
 # "whichever estimator ... bootstrap": the bootstrap estimator's aggregate table (counted margin of a group = live margin
